@@ -164,6 +164,26 @@ def evaluate_rules(ctx, rule='A17e'):
         raise AnalysisError('evaluate: call of _evaluate not found')
     lookups = [c for c in calls(fn, 'get') if c.args and norm(c.args[0]).endswith('.node')] + \
         [x for x in walk_fn(fn) if isinstance(x, ast.Subscript) and norm(x.slice).endswith('.node')]
+    # a local helper that does the look-up for its argument counts as the look-up, provided it hands the evaluator's
+    # value through unchanged: `m.get(node, nan)` - not `m.get(node) or nan`, which turns a legitimate 0.0 into NaN
+    for h in fn.nested.values():
+        if len(h.params) != 1:
+            continue
+        rets = returns_of(h)
+        hcalls = [c for c in walk_fn(fn) if isinstance(c, ast.Call) and isinstance(c.func, ast.Name) and
+                  c.func.id == h.name and c.args and norm(c.args[0]).endswith('.node')]
+        if not rets or not hcalls:
+            continue
+        rv = rets[-1].value
+        plain = isinstance(rv, ast.Call) and call_name(rv) == 'get' and rv.args and norm(rv.args[0]) == h.params[0]
+        ctx.ob(rule, fkey(h, rule, 'helper-hands-value-through'), plain and len(rets) == 1, h.where,
+               'the look-up helper returns the evaluator\'s value itself (missing -> the default of .get), without a '
+               'truthiness fallback that would also replace 0.0', short(rv, 80))
+        inner = rv if plain else next((x for x in ast.walk(rv) if isinstance(x, ast.Call) and call_name(x) == 'get'), None)
+        if inner is not None:
+            for c in hcalls:
+                lookups.append(ast.copy_location(ast.Call(func=inner.func, args=[c.args[0]] + list(inner.args[1:]),
+                                                          keywords=[]), c))
     if len(lookups) < 2:
         raise AnalysisError('evaluate: no value look-up keyed by the node of an objective / constraint found')
     for i, c in enumerate(lookups):
@@ -235,6 +255,8 @@ def check(ctx):
 from ..selftest import V  # noqa: E402
 
 VARIANTS = [
+    V('zero-value-reported-as-nan', 'optimization/evaluator.py',
+      [("        objective_values = [value_map.get(objective.node, math.nan) for objective in self.objectives]", "        def _get_value(metric_node):\n            return value_map.get(metric_node) or math.nan\n        objective_values = [_get_value(objective.node) for objective in self.objectives]")], key='helper-hands-value-through'),
     V('constraint-read-from-stored-values', 'optimization/evaluator.py',
       [("constraint_values = [value_map.get(constraint.node, math.nan)\n                             if constraint.node in metric_nodes else constraint.ref\n                             for constraint in self.constraints]",
         "metric_values = dsg.metric_values\n        constraint_values = [metric_values.get(constraint.node, constraint.ref) for constraint in self.constraints]")],
